@@ -10,7 +10,7 @@ struct X {
   W w; int pre = 0; int disc = -1; uint8_t rc = 0; bool has_rs = false; uint8_t rs1 = 0; int64_t t0 = 0;
   int writes_at_call = 0; bool write_in_progress_at_call = false; int epoch_at_call = 0; int npk_at_call = 0;
   int attempts_after_done = -1; int writes_after_done = -1;
-  bool disconnect_seen = false; int disconnect_pk = -1;
+  bool disconnect_seen = false; int disconnect_pk = -1; bool inbound_sent = false;
 
   void on_packets(int from) {
     for (int i = from; i < w.npk; i++) {
@@ -19,6 +19,7 @@ struct X {
       if (r.epoch == epoch_at_call && !disconnect_seen) {
         // packets of the write that was already in progress when async_disconnect was called may still arrive first
         if (write_in_progress_at_call && r.write_no == writes_at_call + 1) continue;
+        if (r.type == ref::CONNECT) continue;      // the handshake of a connection that was being set up at the call
         vk_assert(r.type == ref::DISCONNECT, "a queued packet was written ahead of the DISCONNECT");
         ref::packet k; bool ok = w.redecode(r, k); vk_assert(ok, "harness: redecode");
         vk_assert(k.rc == rc, "DISCONNECT carries a different reason code than given");
@@ -51,9 +52,10 @@ struct X {
 
 extern "C" void h_disc(void) {
   X* x = new X(); W& w = x->w;
-  x->pre = vk_choose(5);
+  x->pre = vk_choose(6);
   w.start();
-  if (x->pre >= 1) {
+  if (x->pre == 5) { w.publish<qos_e::at_least_once>("t", "A"); vk::drain(); }                                        // never connected, a request already queued
+  if (x->pre >= 1 && x->pre <= 4) {
     uint8_t props[3] = {0x21, 0, 1};
     bool ok = w.establish(); vk_assert(ok, "first connection"); w.send_connack(false, 0, props, x->pre == 3 ? 3 : 0); w.feed_all(); vk::drain();
   }
@@ -68,17 +70,23 @@ extern "C" void h_disc(void) {
   x->disc = w.disconnect(disconnect_rc_e(x->rc), dp); vk::drain();
   x->check();
   for (int step = 0; step < VK_STEPS; step++) {
-    uint32_t ev = vk_choose(4);
+    uint32_t ev = vk_choose(6);
     switch (ev) {
       case 0: { auto* s = vk::pending_write(); if (!s) vk_assume(0); x->finish(s); break; }
       case 1: { auto* s = vk::pending_write(); if (!s) vk_assume(0); w.writes_completed++; vk::complete_write(s, 0, asio::error::connection_reset); vk::drain(); vk_reach("write-failed"); break; }
       case 2: { vk::timer_rec* best = nullptr; for (auto* t : vk::world().timers) if (t->armed && vk::timer_can_fire(t)) { best = t; break; }
                 if (!best) vk_assume(0); vk::timer_fire(best); vk::drain(); vk_reach("timer-fired"); break; }
-      default: { if (w.ops[x->disc].done) vk_assume(0);
+      case 3: { if (w.ops[x->disc].done) vk_assume(0);
                 if (auto* r = vk::pending_resolve()) { vk::complete_resolve(r, {}, 1); vk::drain(); }
-                else if (auto* s = vk::pending_connect()) { vk::complete_connect(s, {}); w.new_connection(); vk::drain(); }
+                else if (auto* s = vk::pending_connect()) { vk::complete_connect(s, {}); w.new_connection(); x->epoch_at_call = w.epoch; vk::drain(); }
                 else vk_assume(0);
                 break; }
+      case 4: { // the broker answers the CONNECT of a connection that was still being set up when async_disconnect was called
+                if (w.ops[x->disc].done || w.connack_sent || w.count_of(ref::CONNECT, w.epoch) == 0 || !vk::pending_read()) vk_assume(0);
+                int b = w.npk; w.send_connack(false, 0, nullptr, 0); w.feed_all(); vk::drain(); x->on_packets(b); vk_reach("connack-after-call"); break; }
+      default: { // the broker sends a QoS 1 PUBLISH: the client queues a PUBACK behind whatever is already queued
+                if (w.ops[x->disc].done || !w.connected() || x->inbound_sent) vk_assume(0); x->inbound_sent = true;
+                w.publish_to_client("m", 1, "x", 1, 1, false, 9); w.feed_all(); vk::drain(); vk_reach("inbound-publish"); break; }
     }
     vk_event(10 + ev, vk_now_ms);
     x->check();
@@ -92,4 +100,5 @@ extern "C" void h_disc(void) {
   x->check();
   if (x->pre == 0) vk_reach("never-connected");
   if (x->pre == 3) vk_reach("throttled-traffic");
+  if (x->pre == 5) vk_reach("never-connected-with-queued-request");
 }
